@@ -4,6 +4,7 @@ import PqlModel.Props.C05SplitRefines
 import PqlModel.Props.C05LexStatement
 import PqlModel.Props.C02Semantics
 import PqlModel.Props.C02Statement
+import PqlModel.Props.C05ParseStatement
 #print axioms Pql.C05.C05_ends_with_semicolon
 #print axioms Pql.C05.C05_subqueryName_injective
 #print axioms Pql.C05.C05_chain_names_by_index
@@ -13,7 +14,7 @@ import PqlModel.Props.C02Statement
 #print axioms Pql.C05.C05_chain_reads_previous
 #print axioms Pql.C05.C05_length_grows_ops
 #print axioms Pql.C05.C05_length_grows
-#print axioms Pql.C05.C05_split_refines
+#print axioms Pql.C05.C05_split_refines_rel
 #print axioms Pql.C05.C05_split_ok_writable
 #print axioms Pql.C05.C05_split_refines_conv
 #print axioms Pql.C05.C05_split_fails_iff
@@ -47,3 +48,24 @@ import PqlModel.Props.C02Statement
 #print axioms Pql.C05.writeExpr_good_scope
 #print axioms Pql.C05.program_sf
 #print axioms Pql.C05.scopeAdj_literals
+#print axioms Pql.C05.C05_select
+#print axioms Pql.C05.select_parse
+#print axioms Pql.C05.C05_select_plain
+#print axioms Pql.C05.C05_select_where
+#print axioms Pql.C05.C05_select_project
+#print axioms Pql.C05.C05_select_extend
+#print axioms Pql.C05.C05_select_summarize
+#print axioms Pql.C05.C05_select_count
+#print axioms Pql.C05.C05_select_render
+#print axioms Pql.C05.C05_select_join
+#print axioms Pql.C05.C05_parse_statement
+#print axioms Pql.C05.C05_statement_structure
+#print axioms Pql.C05.statement_parse
+#print axioms Pql.C05.pExprS_bound
+#print axioms Pql.C05.pExprS_fuelOf
+#print axioms Pql.C05.pExprS_consumes
+#print axioms Pql.C05.C05_counterexample_untranslatable
+#print axioms Pql.C05.C05_counterexample_empty_project
+#print axioms Pql.C05.C05_counterexample_empty_sort
+#print axioms Pql.C05.C05_counterexample_anonymous_column
+#print axioms Pql.C05.C05_split_refines_rel
